@@ -187,7 +187,7 @@ def judge_guard(ctx, fx, g):
         lps = loops_over(variant, None)
         full = None
         for (lp, adaptors) in lps:
-            if adaptors and any(a not in ("enumerate",) for a in adaptors):
+            if adaptors and any(a not in ("enumerate", "values") for a in adaptors):
                 continue
             # recursion on the item in each iteration: next iteration unreachable from the body entry without a self call on the item
             calls_on_item = []
@@ -195,7 +195,7 @@ def judge_guard(ctx, fx, g):
                 p = item_path(cn.kids[0], lp.node)
                 if p is None:
                     continue
-                if variant == "Object" and (not p or p[-1] != 1) and "keys" not in lp.iter_ty:
+                if variant == "Object" and (not p or p[-1] != 1) and "keys" not in lp.iter_ty and not ("Values" in lp.iter_ty and p == []):
                     continue
                 calls_on_item.append(cb)
             if not calls_on_item:
@@ -245,10 +245,48 @@ def judge_guard(ctx, fx, g):
                 gd, bd = success_edges(g, n2)
                 good2.extend(bd)
                 eq_edges_all.extend(gd)
+        # the reserved names searched as a list: `NAMES.iter().find(|n| map.contains_key(n))` (None: no reserved member) /
+        # `NAMES.iter().any(|n| map.contains_key(n))` (false: none)
+        for b2, t2 in g.calls():
+            if t2.get("name") not in ("find", "any", "position", "find_map") or t2.get("trait") != "std::iter::Iterator":
+                continue
+            n2 = gv.call_node(b2)
+            if len(n2.kids) != 2:
+                continue
+            names = common.const_str_list(_iter_source(n2.kids[0]))
+            clo = peel(n2.kids[1])
+            if not names or lit not in names or not (clo.kind == "agg" and clo.d["agg"].get("kind") == "closure" and clo.d["agg"].get("def") in fx.fns):
+                continue
+            cf = fx.fns[clo.d["agg"]["def"]]
+            rvc = peel(vals(cf).return_value())
+            tests_map = rvc.kind == "call" and rvc.d["term"].get("name") == "contains_key" and len(rvc.kids) == 2 \
+                and may(rvc.kids[1], lambda x: x.kind == "param" and x.d["idx"] == 2) \
+                and any(may(k, lambda y: y.kind == "param" and y.fn is g) for k in clo.kids)
+            if not tests_map:
+                continue
+            if t2.get("name") == "any":
+                for (bb_, tt_, ft_, c_) in bool_switches(g):
+                    if peel(c_) is n2:
+                        good2.append((bb_, ft_))
+                        eq_edges_all.append((bb_, tt_))
+            else:
+                gd, bd = success_edges(g, n2)
+                good2.extend(bd)
+                eq_edges_all.extend(gd)
         if good2:
             r = cfg.reachable(g, [obj_tgt], removed_edges=good2)
             if not any(o in r for o in ok_exits) and not any(cb in r for (cb, _) in self_calls):
                 verdict = ("ok", "whole-map test for %r: without its 'absent' edge neither Ok nor recursion is reachable from the Object arm" % lit)
+            else:
+                # with the value a JSON object, `as_object()` on it cannot fail: those edges are infeasible on the way to the Object arm
+                infeasible = []
+                for b3, t3 in g.calls():
+                    if t3.get("name") == "as_object":
+                        n3 = gv.call_node(b3)
+                        if n3.kids and must(n3.kids[0], lambda x: x.kind == "param" and x.fn is g):
+                            infeasible.extend(success_edges(g, n3)[1])
+                if guarded(g, obj_tgt, good2, removed=infeasible):
+                    verdict = ("ok", "whole-map test for %r made before the kind dispatch: the Object arm is reached only on its 'absent' edge" % lit)
         if verdict is None:
             # P1: per-member comparison inside a complete loop over the object
             for (lp, adaptors) in obj_loops:
@@ -326,3 +364,13 @@ def table_agreement(ctx, fx, g):
     ctx.stats["verifier_structural_names"] = sorted(ver)
     ctx.stats["guard_tested_names"] = sorted(gn)
     ctx.info("C13.G4", g, "table", "verifier unpackers test %s; guard tests %s" % (sorted(ver), sorted(gn)))
+
+
+def _iter_source(v):
+    """what an iterator expression iterates: strips iter / copied / cloned / into_iter / by_ref adaptors"""
+    v = peel(v)
+    g_ = 0
+    while v.kind == "call" and v.d["term"].get("name") in ("iter", "copied", "cloned", "into_iter", "by_ref", "deref", "as_slice") and v.kids and g_ < 6:
+        v = peel(v.kids[0])
+        g_ += 1
+    return v
